@@ -669,7 +669,7 @@ theorem explicit_eq_stored_state {c : Circ P α} (hwf : c.WF) (ps : List P) (hne
   have key : ∀ sr x, stateLoop conj sr false [] c'.ops 0 x = stateLoop conj sr true ps c.ops 0 x :=
     fun sr x => stateLoop_set conj sr ps c.ops c'.ops 0 (fun e he => (hwf.1 e he).2.2.2) hloop _ _ _
   unfold Circ.getStatevector
-  rw [if_pos h1, if_neg h2, if_neg h3, decide_eq_true h1, decide_eq_false h3]
+  rw [if_pos h1, if_neg h2, if_neg h3, decide_eq_true h1, decide_eq_false h3, hr]
   simp only [key]
 
 theorem explicit_eq_stored_grad {c : Circ P α} (hwf : c.WF) (ps : List P) (hne : ps ≠ [])
